@@ -2,7 +2,8 @@
 (* impl -> spec for the duration clause of C05.  Each trace is the record of   *)
 (* one REAL scenario driven through Scenario.propagateTo (harness/drivers/     *)
 (* c05.py):                                                                    *)
-(*   [startSec, dt, ev |-> << [e |-> "begin", D |-> requested seconds],        *)
+(*   [startSec, dt (s), tick |-> ticks per second of D,                        *)
+(*    ev |-> << [e |-> "begin", D |-> requested duration in ticks],            *)
 (*                           [e |-> "step", clockMs |-> clock.datetime_epoch   *)
 (*                                  minus the authoritative start, in ms,      *)
 (*                            jdOk |-> 1 iff clock.julian_date_epoch is the    *)
@@ -24,6 +25,10 @@ VARIABLES i, l
 tvars == <<vars, i, l>>
 
 NB == 32
+\* A trace states its unit: tick = ticks per second (1 for whole-second requests, 100 when the
+\* requested durations have a fractional part); dt is given in seconds, D and the specification's
+\* clock are in ticks (Durations.tla is unit free).  Logged clock values stay in milliseconds.
+Tk == IF i > 0 THEN Tr[i].tick ELSE 1
 Ev == IF i > 0 /\ l < Len(Tr[i].ev) THEN Tr[i].ev[l + 1] ELSE [e |-> "none"]
 
 TraceInit == Init /\ i = 0 /\ l = 0
@@ -31,7 +36,7 @@ PickBlock == /\ i = 0 /\ \E b \in 1..NB : i' = -b
              /\ UNCHANGED <<vars, l>>
 PickTrace == /\ i < 0
              /\ \E j \in {n \in DOMAIN Tr : n % NB = (-i) - 1} :
-                  /\ i' = j /\ startSec' = Tr[j].startSec /\ dt' = Tr[j].dt
+                  /\ i' = j /\ startSec' = Tr[j].startSec /\ dt' = Tr[j].dt * Tr[j].tick
              /\ pc' = "idle"
              /\ UNCHANGED <<clockSec, k, calls, reqs, counts, epochs, target, k0, stepsLeft, l>>
 TraceBegin == /\ Ev.e = "begin" /\ PropagateToBegin(Ev.D)
@@ -49,10 +54,10 @@ StepAllowed == Ev.e = "step" => (pc = "running" /\ stepsLeft > 0)
 EndAllowed  == Ev.e = "end" => (pc = "running" /\ stepsLeft = 0)
 BeginAllowed == Ev.e = "begin" => (pc = "idle" /\ Ev.D >= 1)
 \* after the step the simulator's clock reads start + (k+1)*dt, as a datetime and as a Julian date
-ClockAgrees == Ev.e = "step" => (Ev.clockMs = 1000 * (clockSec + dt) /\ Ev.jdOk = 1)
+ClockAgrees == Ev.e = "step" => (Ev.clockMs * Tk = 1000 * (clockSec + dt) /\ Ev.jdOk = 1)
 \* at the end of the trace the truth rows in the database carry the epochs start + j*dt
 Done == i > 0 /\ l = Len(Tr[i].ev)
-RowsAgree == Done => /\ Tr[i].rows = [j \in 1..(k + 1) |-> 1000 * (j - 1) * dt]
+RowsAgree == Done => /\ [j \in DOMAIN Tr[i].rows |-> Tr[i].rows[j] * Tk] = [j \in 1..(k + 1) |-> 1000 * (j - 1) * dt]
                      /\ Tr[i].epochRowsOk = 1
 Accepted == Done => PrintT(<<"ACCEPTED", i>>)
 =============================================================================
